@@ -253,7 +253,7 @@ def check_elem(arg, text, etype):
                 if len(text) > c[1]:
                     return False
             elif k == "pattern":
-                if not re.search(c[1], text):
+                if not re.fullmatch(c[1], text):          # CheckPattern uses std::regex_match: the whole value
                     return False
         except ValueError:
             return False
